@@ -363,7 +363,7 @@ def compare_model(ctx, model_ok, jobs, src):
 
 
 def run(ctx):
-    st = vlib.prepare(ctx, PROP_V, need_translators=('tr_sweep', 'tr_step'))
+    st = vlib.prepare(ctx, PROP_V, need_translators=('tr_sweep', 'tr_step', 'tr_deleg'))
     quick = ctx.tier == 'quick'
     ctx.cov['rule'] = ('random Hermitian generators (single MPO and sums) for every operator family x symmetry, N = 2..6, complex initial states of every admissible charge: '
                        '(a) every operation of real 1-site / 2-site sweeps (precompute on/off, several steps on one environment) replayed through the Coq environment model; '
@@ -390,7 +390,7 @@ def run(ctx):
 
 
 def replay(ctx, path):
-    st = vlib.prepare(ctx, PROP_V, need_translators=('tr_sweep', 'tr_step'))
+    st = vlib.prepare(ctx, PROP_V, need_translators=('tr_sweep', 'tr_step', 'tr_deleg'))
     rec = json.load(open(path))
     jobs, src = [], []
     for v in rec.get('violations', []):
